@@ -3,6 +3,9 @@ import Poulpy.Lemmas.GadgetAlg
 import Poulpy.Lemmas.GadgetPhase
 import Poulpy.Lemmas.GadgetSum
 import Poulpy.Lemmas.GadgetAccum
+import Poulpy.Lemmas.PackAlg
+import Poulpy.Lemmas.PackGalois
+import Poulpy.Model.Core.Pack
 import Poulpy.Props.C09
 
 /-!
@@ -525,5 +528,78 @@ give the same product for `dsize = 3` -/
 example : (gglweProductDft dirty3 exA3 exKey3).act 0 = (gglweProductDft (zeroBuf 1 1 4) exA3 exKey3).act 0 :=
   product_determined dirty3 (zeroBuf 1 1 4) exA3 exKey3 (by decide) AccumExample.dirty3_WF (zeroBuf_WF 1 1 4)
     rfl rfl rfl rfl rfl rfl rfl rfl 0 (by decide)
+
+/-! ## Ring packing: slot placement (layer B, over an abstract automorphism-with-rotation contract)
+
+`Pack.Contract M` abstracts the phases of the ciphertexts: `rot k` = multiplication by `X^k` (`glwe_rotate`),
+`half` = the exact halving of `glwe_rsh(1)`, `sig i` = the Galois automorphism `σ_{g_i}` applied by the
+key-switching automorphism of level `i`, `t i = N/2^{i+1}`; the two hypotheses are `σ_{g_i}(X^{t_i}) = −X^{t_i}`
+and `σ_{g_j}(X^{t_i}) = X^{t_i}` for `j > i` (`pack_galois_*` below: they hold for poulpy's `g_i`, `t_i`).
+The executable `Ks.mergeStep` (Model/Core/Pack.lean: `pack_internal` of glwe_packing.rs and `combine` of
+glwe_packer.rs) performs, at the level of phases and up to the key-switch noise and the rounding of `rsh`,
+`Pack.stepBoth` / `Pack.stepLo` / `Pack.stepHi` in its three branches; this correspondence is checked by the
+oracle for every subset of slots, not proved. -/
+
+/-- both slots present: `X^t·((X^{−t}a + b)/2 − σ((X^{−t}a − b)/2)) = P(a) + X^t·P(b)`, `P(x) = x/2 + σ(x/2)` -/
+theorem pack_step_both {M : Type*} [AddCommGroup M] (c : Pack.Contract M) (i : ℕ) (a b : M) :
+    Pack.stepBoth c i a b = Pack.merge c i a b := Pack.stepBoth_eq_merge c i a b
+
+/-- only the lower slot present (`rsh` + `automorphism_add_assign`): the same formula with `b = 0` -/
+theorem pack_step_lo {M : Type*} [AddCommGroup M] (c : Pack.Contract M) (i : ℕ) (a : M) :
+    Pack.stepLo c i a = Pack.merge c i a 0 := Pack.stepLo_eq_merge c i a
+
+/-- only the upper slot present (rotate + `rsh` + `automorphism_sub_negate`): `X^t b/2 − σ(X^t b/2) = X^t·P(b)` — the
+sign of this branch is what places the upper slot with sign `+` (`σ(X^t y) = −X^t σ(y)`); the same formula with `a = 0` -/
+theorem pack_step_hi {M : Type*} [AddCommGroup M] (c : Pack.Contract M) (i : ℕ) (b : M) :
+    Pack.stepHi c i b = Pack.merge c i 0 b := Pack.stepHi_eq_merge c i b
+
+/-- **Slot placement, by induction on the levels**: after `L` levels, slot `j` holds
+`Σ_{m < 2^L} X^{rotOff m} · (P_{L−1} ∘ … ∘ P_0)(f (j + idxOff m))`, where the binary digits of `m` select which of the
+index distances `s i` / rotation amounts `t i` are accumulated: every input is projected by all the levels
+(scale `1/2 + 1/2`), rotated to its slot, with sign `+`, and nothing else is added. -/
+theorem pack_slot_placement {M : Type*} [AddCommGroup M] (c : Pack.Contract M) (s : ℕ → ℕ) (f : ℕ → M) (L j : ℕ) :
+    Pack.after c s f L j = ∑ m ∈ Finset.range (2 ^ L), c.rot (Pack.rotOff c L m) (Pack.Q c L (f (j + Pack.idxOff s L m))) :=
+  Pack.after_closed_form c s f L j
+
+/-- **Placement of constants**: inputs fixed by every `σ_i` (constant polynomials — what survives the projections) land on
+the coefficient equal to their slot offset (`s i = t i = N/2^{i+1}`), with sign `+` and scale `1`: the packed value of slot
+`j` is `Σ_m X^{idxOff m} · f(j + idxOff m)`. -/
+theorem pack_placement_of_constants {M : Type*} [AddCommGroup M] (c : Pack.Contract M) (s : ℕ → ℕ) (f : ℕ → M)
+    (hs : ∀ i, (s i : ℤ) = c.t i) (hf : ∀ i J, c.sig i (f J) = f J) (L j : ℕ) :
+    Pack.after c s f L j = ∑ m ∈ Finset.range (2 ^ L), c.rot (Pack.idxOff s L m : ℤ) (f (j + Pack.idxOff s L m)) :=
+  Pack.placement_of_constants_poulpy c s f hs hf L j
+
+/-- non-vacuity: in `ℚ[X]/(X²+1)` (`Pack.model`, `σ_0 = σ_{−1}`, `t_0 = 1`) packing the constants `a`, `b` of slots 0, 1 gives `a + bX` -/
+example (a b : ℚ) (f : ℕ → ℚ × ℚ) (h0 : f 0 = (a, 0)) (h1 : f 1 = (b, 0)) :
+    Pack.after Pack.model (fun _ => 1) f 1 0 = (a, b) := Pack.model_pack_two a b f h0 h1
+
+/-- the contract holds for poulpy's parameters, level `0`: `g = −1`, `t = N/2`: `−N/2 ≡ N/2 + N (mod 2N)`, i.e. `σ_{−1}(X^{N/2}) = −X^{N/2}` -/
+theorem pack_galois_level0 (logN : ℕ) (h : 1 ≤ logN) :
+    ((2 : ℤ) ^ (logN - 1) * (-1)) % 2 ^ (logN + 1) = (2 ^ (logN - 1) + 2 ^ logN) % 2 ^ (logN + 1) :=
+  PackGalois.rot_self_zero logN h
+
+/-- level `i ≥ 1`: `g_i = 5^{2^{i−1}}`, `t_i = N/2^{i+1}`: `t_i·g_i ≡ t_i + N (mod 2N)`, i.e. `σ_{g_i}(X^{t_i}) = −X^{t_i}` -/
+theorem pack_galois_level (logN i : ℕ) (h1 : 1 ≤ i) (h2 : i < logN) :
+    (2 ^ (logN - 1 - i) * 5 ^ (2 ^ (i - 1))) % 2 ^ (logN + 1) = (2 ^ (logN - 1 - i) + 2 ^ logN) % 2 ^ (logN + 1) :=
+  PackGalois.rot_self_pos logN i h1 h2
+
+/-- later levels fix the earlier rotations: `t_i·g_j ≡ t_i (mod 2N)` for `i < j`, i.e. `σ_{g_j}(X^{t_i}) = X^{t_i}` -/
+theorem pack_galois_later (logN i j : ℕ) (h1 : i < j) (h2 : j < logN) :
+    (2 ^ (logN - 1 - i) * 5 ^ (2 ^ (j - 1))) % 2 ^ (logN + 1) = (2 ^ (logN - 1 - i)) % 2 ^ (logN + 1) :=
+  PackGalois.rot_later logN i j h1 h2
+
+example : (2 ^ (4 - 1 - 1) * 5 ^ (2 ^ (1 - 1))) % 2 ^ (4 + 1) = (2 ^ (4 - 1 - 1) + 2 ^ 4) % 2 ^ (4 + 1) := by decide
+example : (2 ^ (4 - 1 - 0) * 5 ^ (2 ^ (2 - 1))) % 2 ^ (4 + 1) = (2 ^ (4 - 1 - 0)) % 2 ^ (4 + 1) := by decide
+
+/-- Layer A: the packing tree only uses the keys of the levels it runs — with no input at all `glwe_pack` panics
+(`a.keys().max().unwrap()`), and an input beyond the ring degree is refused -/
+theorem pack_entry_checks (big128 : Bool) (N kb : Nat) (keys : List Key) (rb rs lg : Nat) :
+    pack big128 N kb keys rb rs [] lg = .panic "other" ∧
+    ∀ (j : Nat) (x : Ct), N ≤ j → pack big128 N kb keys rb rs [(j, x)] lg = .panic "assert" := by
+  refine ⟨rfl, ?_⟩
+  intro j x hj
+  simp [pack, hj]
+
+example : pack false 8 4 [] 4 1 [(9, mkCt 4 8 [])] 0 = .panic "assert" := (pack_entry_checks false 8 4 [] 4 1 0).2 9 _ (by decide)
 
 end C03
